@@ -234,6 +234,8 @@ func (g *rtGen) stus(r *Rng, base int64) []any {
 
 var vehPool = []map[string]any{
 	{"id": "V1"}, {"id": "V2", "label": "L2"}, {"label": "only-label"}, {"licensePlate": "LP-1"}, {"id": "V1", "label": "other"}, {"id": "10"}, {"id": "9"},
+	// vehicles that differ only in a later component of the identifier: the order among them is decided by that component
+	{"id": "V2", "label": "L2", "licensePlate": "P2"}, {"id": "V2", "label": "L2", "licensePlate": "P1"}, {"label": "only-label", "licensePlate": "Q"}, {"licensePlate": "LP-0"},
 }
 
 func (g *rtGen) vehiclePosition(r *Rng, base int64) map[string]any {
@@ -294,7 +296,7 @@ func translations(r *Rng) any {
 	return out
 }
 
-var sortOrders = []string{"MTASBWY:A:19", "MTASBWY:M:2", "MTASBWY:1:3", "x:4", "nocolon", "a:b:", "a:+22", "a:-1", "a:40", "a:99", "a: 5", "a:1", "a:7", "a:15", "a:31"}
+var sortOrders = []string{":7", ":", "", "MTASBWY:A:19", "MTASBWY:M:2", "MTASBWY:1:3", "x:4", "nocolon", "a:b:", "a:+22", "a:-1", "a:40", "a:99", "a: 5", "a:1", "a:7", "a:15", "a:31"}
 
 func (g *rtGen) selector(r *Rng, trips []map[string]any) map[string]any {
 	s := map[string]any{}
